@@ -337,3 +337,20 @@ def near_collision(rng, n, tries=40):
             if im is not None and target <= im < 4 * target and np.abs(w).sum() <= 0.9 and abs(w[0]) >= 1e-3 and abs(w[-1]) >= 1e-3:
                 return [float(x) for x in w], im
     return None
+
+
+def poly_form(coefs, key, kinds=("list", "ndarray", "Polynomial", "TargetPolynomial")):
+    """the same coefficients in one of the containers the entry point documents (a fixed function of `key`, so that a
+    replay uses the same): Python list, float / complex ndarray, numpy Polynomial, pyqsp TargetPolynomial"""
+    import zlib
+    kind = kinds[zlib.crc32(repr(key).encode()) % len(kinds)]
+    if kind == "list":
+        return list(coefs), kind
+    if kind == "ndarray":
+        return np.array(coefs), kind
+    if kind == "tuple":
+        return tuple(coefs), kind
+    if kind == "Polynomial":
+        return np.polynomial.Polynomial(np.array(coefs)), kind
+    from pyqsp.poly import TargetPolynomial
+    return TargetPolynomial(np.array(coefs)), kind
